@@ -77,7 +77,7 @@ prop("C13",
      harness="c13",
      level_text="Lean theorem no_panic: from a well-formed machine (real stack size, micro-address < 512 - established by new/load) no operation of any sequence panics and every intermediate machine is well-formed; each panic-capable site of the machine code is either an explicit outcome of the model (unreachable! for stack size NotSet, RAM index in load) or discharged by a per-site lemma (4-bit ALU select, 3-bit register numbers, 9-bit micro-address over the whole generated control store, input register index, saturating casts, timer arithmetic). Tied to the code by differential histories with catch_unwind around every call",
      technique="Lean 4 well-formedness invariant + per-site dead-branch lemmas (decide over the generated control store) + differential histories with catch_unwind",
-     rule="random and opcode-biased RAM images (0..240 bytes) x 5 stack sizes x program sizes x random stimulus (interrupt, continue, resets, input/board setters incl. NaN/inf/denormal bit patterns, direct bus reads/writes of every address, mode switches, reloads) interleaved with single edges; every call under catch_unwind, full dump compared after every 1-4 ops; distinct = distinct op lines",
+     rule="random and opcode-biased RAM images (0..240 bytes) x 5 stack sizes x program sizes x random stimulus (interrupt, continue, resets, input/board setters incl. NaN/inf/denormal bit patterns, direct bus reads/writes of every address, mode switches, reloads) interleaved with single edges; every call under catch_unwind and a watchdog (a call that does not return within 20 s is recorded as `hang:` and reported as a concrete violation), full dump compared after every 1-4 ops; distinct = distinct op lines",
      explanation="what no model can exhibit: stack exhaustion or allocation failure of the Rust runtime (no modelled function recurses or allocates per edge)",
      assumptions=["Rust float->int casts saturate (language semantics)", "debug-assertion/overflow checks are ON in the harness build (profile.release: debug-assertions, overflow-checks)"],
      )
@@ -136,7 +136,7 @@ prop("C15",
      exhaustive={"quick": False, "thorough": False},
      level_text="Lean theorems on the edge function: an executed micro-step raises the wait flag iff it reads or writes an address 0x00-0xEF (one flag even for read+write words, none for I/O), a pending wait costs exactly one edge, hence cost_law: k+1 micro-steps take k+1 edges plus one per RAM-accessing step (microRun_edges ties the counting function to edge-by-edge execution); steps_fixed (kernel evaluation over the regenerated control store): for every defined first byte outside MUL/DIV and every defined second byte all interrupt-free paths have one and the same length; the cost does not depend on the step mode. The real machine is measured between boundaries for every form and compared with the law and with the fixed step count",
      technique="Lean 4 proof of the cost law by induction over micro-steps + kernel-evaluated path-length uniqueness over the translated control store + measurement of every instruction form on the real machine",
-     rule="every defined first byte (x defined second bytes; quick: a third of them per repetition) with operand addresses in RAM or biased to 0xF0-0xFF, stack pointer in RAM or at the boundary, code placed in low RAM or straddling 0xEE/0xEF/0xF0 (second bytes read from the board input port); edges, executed micro-steps and RAM accesses are observed through Signals/hooks between two is_instruction_done boundaries and compared with steps + accesses and with the step count computed from the control store; MUL/DIV: every 37th operand pair (thorough: all 65 536); distinct = distinct (opcode, second byte, registers, placement)",
+     rule="every defined first byte (x defined second bytes; quick: a third of them per repetition) with operand addresses in RAM or biased to 0xF0-0xFF, stack pointer in RAM or at the boundary, code placed in low RAM or straddling 0xEE/0xEF/0xF0 (second bytes read from the board input port); edges, executed micro-steps and RAM accesses are observed through Signals/hooks between two is_instruction_done boundaries and compared with steps + accesses and with the step count computed from the control store; MUL/DIV: every 37th operand pair (thorough: all 65 536); interrupt entry: the register-register ALU instructions and NOP with a request pending and IEF set, stack in RAM / at the boundary / in the I/O area (spec.costint: edges = steps + RAM accesses, steps = fixed count + 8); distinct = distinct (opcode, second byte, registers, placement)",
      explanation="MUL/DIV step counts are data dependent; their loop functions belong to C01",
      assumptions=["interrupt-taking paths are excluded from the fixed step count (C04 covers interrupt entry)"],
      )
@@ -213,7 +213,7 @@ prop("C06",
      harness="c06",
      level_text="Lean theorems on the translator model with Rust panics as explicit outcomes: compile_error (translation fails only by `.ORG` below the current address, overflow of the 8-bit address counter, or an undefined label at substitution), push_error/push_ok (exact conditions per line); DEC with every operand shape is total (bols_encode covers it). The two remaining panic classes are genuine defects recorded as known findings (backward .ORG; image larger than 240/255 bytes); any other panic, or one of these on a program outside its class (the model predicts the class for every generated program), is reported. accepted_no_label_panic: a program that passes the parser's label validation (every referenced name has a case-insensitive definition) never reaches the translator's `expect(\"Labels must be defined\")` - bols_ref: every placeholder the translator creates for any instruction form names a label the validation looked at; fold_inv: every name the parser counts as defined enters the translator's table under the same lower-cased key and stays findable. Hence for accepted programs translation fails only in the two recorded classes",
      technique="Lean 4 panic-outcome model of the translator with exact failure characterisation + differential compile-and-load under catch_unwind on generated and directed programs, known-findings filter",
-     rule="generated accepted programs (incl. backward .ORG in a fifth, oversize images in a quarter), directed: images of every size 0..300, .ORG to 14 targets from 7 positions, labels referenced in other letter cases through JR/JMP/CALL/JCS/LD/LDSP/DEC/MOV/.EQU, DEC with every operand shape; each is parsed by the real parser, compiled and loaded under catch_unwind, the panic site is classified from the panic message; `compileload` = model prediction, `spec.c06` = must be ok; distinct = distinct serialised ASTs",
+     rule="generated accepted programs (incl. backward .ORG in a fifth, oversize images in a quarter), directed: images of every size 0..300, .ORG to 14 targets from 7 positions, labels referenced in other letter cases through JR/JMP/CALL/JCS/LD/LDSP/DEC/MOV/.EQU, DEC with every operand shape, a label that is defined nowhere in every label-bearing operand position (105 programs; rejected by a correct parser); each is parsed by the real parser, compiled and loaded under catch_unwind, the panic site is classified from the panic message; `compileload` = model prediction, `spec.c06` = must be ok; distinct = distinct serialised ASTs",
      explanation="KNOWN FINDINGS (see known_findings.txt): backward .ORG, image > 240 bytes, image > 255 bytes",
      assumptions=["harness built with overflow checks on (the release binary wraps the address counter silently instead of panicking)"],
      )
@@ -227,7 +227,7 @@ prop("C03",
      exhaustive={"quick": False, "thorough": False},
      level_text="PARTIAL. The model of the parser is a PEG interpreter over the grammar REGENERATED from mrasm.pest on every run (tools/gen_grammar.py) plus hand-written AST builders in which every unwrap/expect/unreachable of implementation/mod.rs is an explicit `panic <site>` outcome. Lean theorems: every numeric value a builder returns is below the limit of its type (fromRadix_bound), label validation rejects exactly >40 definitions / a reference without a case-insensitive definition (validate_spec), the parser model is total (parse_total); reject_family / accept_family / label_limit: kernel evaluation of the model parser on 33 boundary rejects (256, 0x100, nine significant binary digits, 65536, header variants, register-like labels, separators, undefined label), 11 accepts right below the boundaries with their ASTs, and 40 / 41 label definitions (tests, labelled as such: an edit of mrasm.pest or of a builder that moves a boundary breaks them). NOT a theorem: that no token tree of the grammar reaches a panic outcome in a builder, and language equality with a description independent of the grammar file; both are decided only up to the correspondence: real pest parser vs the model on generated programs whose AST is known by construction (spec.parse: the parser must return exactly the AST the text was rendered from), single-token mutations, directed accept/reject boundaries (255/256, 65535/65536, 8/9 binary digits, 40/41 labels, header) and raw byte/Unicode strings under catch_unwind (spec.noparsepanic)",
      technique="Lean 4 PEG-interpreter model over the grammar translated from mrasm.pest + theorems on number/label validation + differential search against the real pest parser with construction-known ASTs",
-     rule="generated (AST, text) pairs over every instruction form, radix, leading zeros, case and spacing variants (`parse` = real result vs model result, `spec.parse` = real result vs the AST the text was written from), two single-token mutations of each, 30 directed rejects and 8 directed boundary accepts, raw strings over an mrasm-biased and a Unicode alphabet (`spec.noparsepanic`); distinct = distinct texts",
+     rule="generated (AST, text) pairs over every instruction form, radix, leading zeros, case and spacing variants (`parse` = real result vs model result, `spec.parse` = real result vs the AST the text was written from), two single-token mutations of each, 30 directed rejects + 105 programs that reference an undefined label in every operand position and 8 directed boundary accepts, raw strings over an mrasm-biased and a Unicode alphabet (`spec.noparsepanic`); distinct = distinct texts",
      explanation="a difference on a `spec.` line is a concrete input on which the real parser returns the wrong program, accepts/rejects wrongly, or panics",
      assumptions=["pest's PEG semantics is modelled by the interpreter in Model/Peg.lean (ordered choice, greedy repetition, implicit whitespace off, SOI/EOI, case-insensitive literals); tied by the differential runs only"],
      )
